@@ -72,7 +72,7 @@ def rotate(shards, seed):
     return shards[k:] + shards[:k]
 
 
-def run_shards(run, worker_fn, shards, seed=0, jobs=None, chunksize=1, shard_limit=240):
+def run_shards(run, worker_fn, shards, seed=0, jobs=None, chunksize=1, shard_limit=900):
     """worker_fn(shard, partial) is executed for every shard; results are merged
     into `run`.  worker_fn must be a module-level function (fork start method
     means it need not be picklable, it is inherited)."""
